@@ -25,3 +25,38 @@ func retainedAcross(call func(variant int) []byte) bool {
 	_ = call(2)
 	return bytes.Equal(r0, saved)
 }
+
+type binMarshaler interface {
+	MarshalBinary() ([]byte, error)
+}
+
+// marshalHygiene runs the three checks every slice-returning serialiser has to pass in addition to producing the
+// right octets: (1) serialising does not change the value being serialised (mk builds two equal fresh values; one
+// is serialised, then they must still be deeply equal), (2) the result is an independent value — the caller
+// overwrites it, a second serialisation of the same value must return the original octets again, and (3) it stays
+// valid while another value is serialised. It returns "" or the name of the check that failed.
+func marshalHygiene(mk func() binMarshaler, other binMarshaler, deepEqual func(a, b any) bool) (string, string) {
+	v, twin := mk(), mk()
+	r1, err := v.MarshalBinary()
+	if err != nil {
+		return "", ""
+	}
+	if !deepEqual(v, twin) {
+		return "serialising-changes-the-value", "the value differs from an identically built one after MarshalBinary"
+	}
+	saved := append([]byte{}, r1...)
+	for i := range r1 {
+		r1[i] ^= 0xFF
+	}
+	r2, err := v.MarshalBinary()
+	if err != nil || !bytes.Equal(r2, saved) {
+		return "second-serialisation-differs", "after the caller overwrote the first result, serialising the same value again gives different octets"
+	}
+	if other != nil {
+		_, _ = other.MarshalBinary()
+		if !bytes.Equal(r2, saved) {
+			return "result-overwritten-by-later-call", "serialising another value overwrote a result returned earlier"
+		}
+	}
+	return "", ""
+}
